@@ -1192,6 +1192,13 @@ func (p *BinaryProtocol) ReadBaseTypeWithDesc(desc *proto.TypeDescriptor, hasMes
 		}
 		// read repeat until sumLength equals MessageLength
 		start := p.Read
+		if messageLength < 0 || messageLength > len(p.Buf)-start {
+			return nil, errDecodeField
+		}
+		// lists and maps of this message end where the message ends, not where the buffer ends
+		buf := p.Buf
+		p.Buf = buf[:start+messageLength]
+		defer func() { p.Buf = buf }()
 		for p.Read < start+messageLength {
 			fieldNumber, wireType, tagLen, fieldTagErr := p.ConsumeTagWithoutMove()
 			if fieldTagErr != nil {
